@@ -14,6 +14,12 @@
 //	                     The history (ListTools / time passing / the server replacing the tool or removing the
 //	                     tools before it / list_changed notifications) is played on the real client and server
 //	                     inside a synctest bubble before the call, so ttlMs expiry happens on the fake clock.
+//	                     A listing may be split into its steps (send / answer / deliver per page): the RoundTripper
+//	                     then holds the tools/list request before the server sees it, holds the complete answer,
+//	                     and keeps list_changed notifications of the subscriptions/listen stream back until the
+//	                     history's "notify" step (c12Gate), so that a change and its notification can fall between
+//	                     a request, its answer and the answer's delivery.  Chunks (one history, one client/server
+//	                     pair, one bubble each) run side by side as parallel subtests.
 //
 // Both read VERIF_IN (ndjson cases), write VERIF_OUT (ndjson observations for the TLA+ monitors) and take every
 // random choice from VERIF_SEED.
@@ -582,6 +588,157 @@ type c12RT struct {
 	local net.Addr
 	mu    sync.Mutex
 	sent  []c12Sent // what the server-side handler received, after the wire
+	gate  *c12Gate  // mirror histories: holds tools/list requests / answers and list_changed notifications on the wire
+}
+
+// c12Gate is the scripted part of the wire of the mirror histories.  While armed, a tools/list request for one of
+// the two pages the model follows (no cursor: "p1"; the cursor that follows the last first-page filler: "pN") stops
+// twice: before it reaches the server (ListSent, until "answer") and after the server has answered completely
+// (ListAnswered, until "deliver").  notifications/tools/list_changed events on the subscriptions/listen stream are
+// kept back until "notify" (NotifiedDelivered).
+type c12Gate struct {
+	mu         sync.Mutex
+	armed      bool
+	open       bool   // teardown: nothing is held any more
+	lastFiller string // name of the last first-page filler ("" when there is none)
+	phase      string // idle | sent | ans | gap (released, the client has not come back yet)
+	key        string // p1 | pN
+	answerGo   chan struct{}
+	deliverGo  chan struct{}
+	held       [][]byte // list_changed events kept back
+	noteW      *io.PipeWriter
+	seenNotes  int
+}
+
+func (g *c12Gate) state() (string, string) {
+	g.mu.Lock()
+	defer g.mu.Unlock()
+	return g.phase, g.key
+}
+
+func (g *c12Gate) setPhase(p string) {
+	g.mu.Lock()
+	g.phase = p
+	g.mu.Unlock()
+}
+
+// claim decides whether a tools/list request is held, and registers it as the request in flight.
+func (g *c12Gate) claim(body []byte) (answerGo, deliverGo chan struct{}, ok bool) {
+	var msg struct {
+		Params struct {
+			Cursor string `json:"cursor"`
+		} `json:"params"`
+	}
+	if json.Unmarshal(body, &msg) != nil {
+		return nil, nil, false
+	}
+	key := "p1"
+	if msg.Params.Cursor != "" {
+		raw, err := base64.URLEncoding.DecodeString(msg.Params.Cursor)
+		if err != nil || g.lastFiller == "" || !bytes.Contains(raw, []byte(g.lastFiller)) {
+			return nil, nil, false // a page after the tools' page: not followed by the model
+		}
+		key = "pN"
+	}
+	g.mu.Lock()
+	defer g.mu.Unlock()
+	if !g.armed || g.open || g.phase == "sent" || g.phase == "ans" {
+		return nil, nil, false
+	}
+	g.phase, g.key = "sent", key
+	g.answerGo, g.deliverGo = make(chan struct{}), make(chan struct{})
+	return g.answerGo, g.deliverGo, true
+}
+
+// release lets the request in flight take its next step (what: "answer" | "deliver"); false if there is none there.
+func (g *c12Gate) release(what string) bool {
+	g.mu.Lock()
+	defer g.mu.Unlock()
+	switch {
+	case what == "answer" && g.phase == "sent":
+		close(g.answerGo)
+	case what == "deliver" && g.phase == "ans":
+		g.phase = "gap"
+		close(g.deliverGo)
+	default:
+		return false
+	}
+	return true
+}
+
+// openAll ends the script: whatever is held goes through.
+func (g *c12Gate) openAll() {
+	g.mu.Lock()
+	g.open, g.armed = true, false
+	if g.phase == "sent" {
+		close(g.answerGo)
+		close(g.deliverGo)
+	} else if g.phase == "ans" {
+		close(g.deliverGo)
+	}
+	g.phase = "gap"
+	g.mu.Unlock()
+	g.flushNotes()
+}
+
+// filter forwards the events of a subscriptions/listen stream, keeping list_changed notifications back.
+func (g *c12Gate) filter(src io.ReadCloser) io.ReadCloser {
+	pr2, pw2 := io.Pipe()
+	g.mu.Lock()
+	g.noteW = pw2
+	g.mu.Unlock()
+	go func() {
+		br := bufio.NewReader(src)
+		var ev []byte
+		for {
+			line, err := br.ReadBytes('\n')
+			ev = append(ev, line...)
+			if err != nil {
+				pw2.CloseWithError(err)
+				return
+			}
+			if len(bytes.TrimRight(line, "\r\n")) != 0 {
+				continue
+			}
+			g.mu.Lock()
+			hold := !g.open && bytes.Contains(ev, []byte("notifications/tools/list_changed"))
+			if hold {
+				g.held = append(g.held, ev)
+				g.seenNotes++
+			}
+			g.mu.Unlock()
+			if !hold {
+				pw2.Write(ev)
+			}
+			ev = nil
+		}
+	}()
+	return c12FilterBody{pr2, src}
+}
+
+type c12FilterBody struct {
+	*io.PipeReader
+	src io.ReadCloser
+}
+
+func (b c12FilterBody) Close() error { b.src.Close(); return b.PipeReader.Close() }
+
+// flushNotes delivers the notifications kept back so far.
+func (g *c12Gate) flushNotes() int {
+	g.mu.Lock()
+	held, w := g.held, g.noteW
+	g.held = nil
+	g.mu.Unlock()
+	for _, ev := range held {
+		w.Write(ev)
+	}
+	return len(held)
+}
+
+func (g *c12Gate) pending() int {
+	g.mu.Lock()
+	defer g.mu.Unlock()
+	return len(g.held)
 }
 
 func (rt *c12RT) sentSnapshot() []c12Sent {
@@ -625,6 +782,17 @@ func (rt *c12RT) RoundTrip(req *http.Request) (*http.Response, error) {
 	rt.mu.Lock()
 	rt.sent = append(rt.sent, c12Sent{Header: sreq.Header.Clone(), Body: body})
 	rt.mu.Unlock()
+	var answerGo, deliverGo chan struct{}
+	gated := false
+	if rt.gate != nil && sreq.Header.Get("Mcp-Method") == "tools/list" {
+		if answerGo, deliverGo, gated = rt.gate.claim(body); gated {
+			select { // ListSent: the request has left the client
+			case <-answerGo:
+			case <-req.Context().Done():
+				return nil, req.Context().Err()
+			}
+		}
+	}
 	ctx, cancel := context.WithCancel(context.WithValue(context.Background(), http.LocalAddrContextKey, rt.local))
 	stop := context.AfterFunc(req.Context(), cancel)
 	pr, pw := io.Pipe()
@@ -641,10 +809,32 @@ func (rt *c12RT) RoundTrip(req *http.Request) (*http.Response, error) {
 		pr.Close()
 		return nil, req.Context().Err()
 	}
+	var rbody io.ReadCloser = c12Body{pr, cancel}
+	if gated {
+		// ListAnswered: the server has answered completely; the answer stays on the wire until "deliver"
+		all, rerr := io.ReadAll(pr)
+		cancel()
+		if rerr != nil {
+			return nil, rerr
+		}
+		rt.gate.mu.Lock()
+		if rt.gate.phase == "sent" {
+			rt.gate.phase = "ans"
+		}
+		rt.gate.mu.Unlock()
+		select {
+		case <-deliverGo:
+		case <-req.Context().Done():
+			return nil, req.Context().Err()
+		}
+		rbody = io.NopCloser(bytes.NewReader(all))
+	} else if rt.gate != nil && sreq.Header.Get("Mcp-Method") == "subscriptions/listen" {
+		rbody = rt.gate.filter(rbody)
+	}
 	return &http.Response{
 		StatusCode: w.status, Status: fmt.Sprintf("%d %s", w.status, http.StatusText(w.status)),
 		Proto: "HTTP/1.1", ProtoMajor: 1, ProtoMinor: 1,
-		Header: w.snap, Body: c12Body{pr, cancel}, ContentLength: -1, Request: req,
+		Header: w.snap, Body: rbody, ContentLength: -1, Request: req,
 	}, nil
 }
 
@@ -656,7 +846,7 @@ type c12Hist struct {
 	TTL   string   `json:"ttl"`   // none: tools/list answers carry ttlMs 0; pos: a positive ttlMs
 	Page  string   `json:"page"`  // first: the tool is on the first page; later: on a later page only
 	Sub   bool     `json:"sub"`   // the client has a ToolListChangedHandler (keeps a subscriptions/listen stream)
-	Steps []string `json:"steps"` // list | wait | change | shrink
+	Steps []string `json:"steps"` // list | wait | change | shrink | notify | send | answer | deliver
 }
 
 func (h c12Hist) key() string {
@@ -945,11 +1135,18 @@ func c12Revise(v any, ver int) any {
 // c12MirChunk plays history h on a fresh real client / real stateless server pair that serves the tools of jobs,
 // then makes every job's call.  Everything runs in one synctest bubble: time only passes in the "wait" steps (and
 // the 50 ms given to the server's debounced list_changed notification).
-func c12MirChunk(t *testing.T, r *rand.Rand, h c12Hist, jobs []*c12MirJob, enc *json.Encoder) {
+func c12MirChunk(t *testing.T, r *rand.Rand, h c12Hist, jobs []*c12MirJob, enc c12LineSink) {
 	synctest.Test(t, func(t *testing.T) { c12MirChunkIn(t, r, h, jobs, enc) })
 }
 
-func c12MirChunkIn(t *testing.T, r *rand.Rand, h c12Hist, jobs []*c12MirJob, enc *json.Encoder) {
+// c12LineSink collects the observation lines of one chunk (chunks run side by side; lines are written in chunk order).
+type c12LineSink interface{ Encode(v any) error }
+
+type c12Lines struct{ lines []c12MirLine }
+
+func (l *c12Lines) Encode(v any) error { l.lines = append(l.lines, v.(c12MirLine)); return nil }
+
+func c12MirChunkIn(t *testing.T, r *rand.Rand, h c12Hist, jobs []*c12MirJob, enc c12LineSink) {
 	type got struct {
 		args json.RawMessage
 	}
@@ -996,7 +1193,11 @@ func c12MirChunkIn(t *testing.T, r *rand.Rand, h c12Hist, jobs []*c12MirJob, enc
 		}
 	})
 	handler := mcp.NewStreamableHTTPHandler(func(*http.Request) *mcp.Server { return server }, &mcp.StreamableHTTPOptions{Stateless: true})
-	rt := &c12RT{h: handler, local: &net.TCPAddr{IP: net.ParseIP("127.0.0.1"), Port: 8080}}
+	gate := &c12Gate{phase: "idle"}
+	if len(fillers) > 0 {
+		gate.lastFiller = fillers[len(fillers)-1]
+	}
+	rt := &c12RT{h: handler, local: &net.TCPAddr{IP: net.ParseIP("127.0.0.1"), Port: 8080}, gate: gate}
 	ctx, cancel := context.WithCancel(context.Background())
 	defer cancel()
 	var copts *mcp.ClientOptions
@@ -1016,6 +1217,8 @@ func c12MirChunkIn(t *testing.T, r *rand.Rand, h c12Hist, jobs []*c12MirJob, enc
 		t.Fatalf("c12 mirror: connect: %v", err)
 	}
 	defer func() {
+		gate.openAll() // whatever the script still holds goes through
+		synctest.Wait()
 		cs.Close()
 		for ss := range server.Sessions() {
 			ss.Close()
@@ -1027,15 +1230,34 @@ func c12MirChunkIn(t *testing.T, r *rand.Rand, h c12Hist, jobs []*c12MirJob, enc
 	}
 
 	// ---- the history
-	settle := func() { // a debounced list_changed notification (10 ms) has gone out and has been handled
+	settle := func() { // a debounced list_changed notification (10 ms) has gone out (and is kept back on the wire until "notify")
 		time.Sleep(50 * time.Millisecond)
 		synctest.Wait()
 	}
+	checkListed := func(listed map[string]bool) {
+		for _, j := range jobs {
+			if !listed[j.tool] {
+				t.Fatalf("c12 mirror: tool %s with a valid annotation was not listed by the client (schema %v)", j.tool, j.schema)
+			}
+		}
+	}
 	shifted := false
 	var trail []string
+	var passErr error // (under mu) error of a listing that ran in the background
+	passes := 0       // (under mu) listings that have returned every page
+	where := func() string {
+		ph, key := gate.state()
+		if ph == "sent" || ph == "ans" {
+			return ph + ":" + key
+		}
+		return ph
+	}
 	for _, step := range h.Steps {
 		switch step {
 		case "list":
+			gate.mu.Lock()
+			gate.armed = false
+			gate.mu.Unlock()
 			base := len(rt.sentSnapshot())
 			listed := map[string]bool{}
 			for tool, err := range cs.Tools(ctx, nil) {
@@ -1044,12 +1266,57 @@ func c12MirChunkIn(t *testing.T, r *rand.Rand, h c12Hist, jobs []*c12MirJob, enc
 				}
 				listed[tool.Name] = true
 			}
-			for _, j := range jobs {
-				if !listed[j.tool] {
-					t.Fatalf("c12 mirror: tool %s with a valid annotation was not listed by the client (schema %v)", j.tool, j.schema)
-				}
-			}
+			checkListed(listed)
 			trail = append(trail, fmt.Sprintf("list(%d requests)", len(rt.sentSnapshot())-base))
+		case "send": // ListSent: the application starts listing; the requests for the pages the model follows are held
+			if ph, _ := gate.state(); ph != "idle" {
+				trail = append(trail, "send(listing in progress: "+where()+")")
+				break
+			}
+			gate.mu.Lock()
+			gate.armed, gate.phase = true, "gap"
+			gate.mu.Unlock()
+			base := len(rt.sentSnapshot())
+			go func() {
+				listed := map[string]bool{}
+				var lerr error
+				for tool, err := range cs.Tools(ctx, nil) {
+					if err != nil {
+						lerr = err
+						break
+					}
+					listed[tool.Name] = true
+				}
+				mu.Lock()
+				if lerr != nil {
+					passErr = lerr
+				} else {
+					passes++
+					for _, j := range jobs {
+						if !listed[j.tool] && passErr == nil {
+							passErr = fmt.Errorf("tool %s with a valid annotation was not listed by the client", j.tool)
+						}
+					}
+				}
+				mu.Unlock()
+				gate.mu.Lock()
+				gate.armed, gate.phase = false, "idle"
+				gate.mu.Unlock()
+			}()
+			synctest.Wait()
+			trail = append(trail, fmt.Sprintf("send(%d requests)->%s", len(rt.sentSnapshot())-base, where()))
+		case "answer", "deliver": // ListAnswered / ListDelivered
+			ok := gate.release(step)
+			synctest.Wait()
+			if ok {
+				trail = append(trail, step+"->"+where())
+			} else {
+				trail = append(trail, step+"(nothing there: "+where()+")")
+			}
+		case "notify": // NotifiedDelivered
+			n := gate.flushNotes()
+			synctest.Wait()
+			trail = append(trail, fmt.Sprintf("notify(%d)", n))
 		case "wait":
 			d := c12Pick(r, time.Second, time.Hour)
 			if ttl > 0 {
@@ -1072,7 +1339,16 @@ func c12MirChunkIn(t *testing.T, r *rand.Rand, h c12Hist, jobs []*c12MirJob, enc
 		default:
 			t.Fatalf("c12 mirror: unknown step %q", step)
 		}
+		mu.Lock()
+		perr := passErr
+		mu.Unlock()
+		if perr != nil {
+			t.Fatalf("c12 mirror: tools/list (history %s, after %v): %v", h.key(), trail, perr)
+		}
 	}
+	mu.Lock()
+	trail = append(trail, fmt.Sprintf("listing=%s background-listings=%d held=%d", where(), passes, gate.pending()))
+	mu.Unlock()
 	mu.Lock()
 	trail = append(trail, fmt.Sprintf("notified=%d", notified))
 	mu.Unlock()
@@ -1221,11 +1497,33 @@ func TestVerif_C12Mirror(t *testing.T) {
 		}
 		idx++
 	}
+	// every chunk is a subtest with a synctest bubble and a random source of its own; chunks run side by side
+	// (go test -parallel) and their lines are written in chunk order afterwards
 	const chunk = 48
+	type piece struct {
+		h    c12Hist
+		jobs []*c12MirJob
+		out  c12Lines
+	}
+	var pieces []*piece
 	for _, k := range order {
 		jobs := byHist[k]
 		for i := 0; i < len(jobs); i += chunk {
-			c12MirChunk(t, r, jobs[0].c.Hist, jobs[i:min(i+chunk, len(jobs))], enc)
+			pieces = append(pieces, &piece{h: jobs[0].c.Hist, jobs: jobs[i:min(i+chunk, len(jobs))]})
+		}
+	}
+	t.Run("chunks", func(t *testing.T) {
+		for i, pc := range pieces {
+			cr := rand.New(rand.NewPCG(seed, 121200+uint64(i)))
+			t.Run(strconv.Itoa(i), func(t *testing.T) {
+				t.Parallel()
+				c12MirChunk(t, cr, pc.h, pc.jobs, &pc.out)
+			})
+		}
+	})
+	for _, pc := range pieces {
+		for _, line := range pc.out.lines {
+			enc.Encode(line)
 		}
 	}
 }
